@@ -16,7 +16,10 @@ import (
 // ---------------------------------------------------------------------------------------
 // C20: engine entry points classify results and resolve files consistently.
 
+// aliases: sub-workflow references as the workflow texts spell them -> the file they mean (the direct
+// Prepare+Execute reference is given the file contents under the spelling the text uses)
 type c20Tree struct {
+	aliases map[string]string
 	name  string
 	files map[string]string // relative file name -> text; "workflow.yaml" is the root
 	leafs []string          // plugin step ids (script keys)
@@ -91,6 +94,12 @@ func c20Trees(otherID string, explicit *[2]bool) []*c20Tree {
 			&c20Tree{name: "sharedlevels2", files: map[string]string{
 				"workflow.yaml": strings.Replace(c20Loop("a.yaml", defaultInputSchema, "$.input.n", otherID, ""), "outputs:\n", "  l2:\n    kind: foreach\n    workflow: z.yaml\n    items:\n      - v: !expr $.input.n\n    wait_for: !expr $.steps.l.outputs\noutputs:\n", 1),
 				"z.yaml":        c20Loop("m.yaml", sub, "$.input.v", "", ""), "m.yaml": c20Loop("a.yaml", sub, "$.input.v", "", ""), "a.yaml": leaf}},
+			// paths that are not in canonical form
+			&c20Tree{name: "dotslash", aliases: map[string]string{"./leaf.yaml": "leaf.yaml"}, files: map[string]string{"workflow.yaml": c20Loop("./leaf.yaml", defaultInputSchema, "$.input.n", otherID, ""), "leaf.yaml": leaf}},
+			&c20Tree{name: "dotdot", aliases: map[string]string{"sub/../leaf.yaml": "leaf.yaml"}, files: map[string]string{"workflow.yaml": c20Loop("sub/../leaf.yaml", defaultInputSchema, "$.input.n", otherID, ""), "leaf.yaml": leaf, "sub/keep.yaml": leaf}},
+			&c20Tree{name: "dblslash", aliases: map[string]string{"sub//leaf.yaml": "sub/leaf.yaml"}, files: map[string]string{"workflow.yaml": c20Loop("sub//leaf.yaml", defaultInputSchema, "$.input.n", otherID, ""), "sub/leaf.yaml": leaf}},
+			&c20Tree{name: "nesteddotslash", aliases: map[string]string{"./sub/leaf.yaml": "sub/leaf.yaml"}, files: map[string]string{"workflow.yaml": c20Loop("sub/mid.yaml", defaultInputSchema, "$.input.n", otherID, ""),
+				"sub/mid.yaml": c20Loop("./sub/leaf.yaml", sub, "$.input.v", "", ""), "sub/leaf.yaml": leaf}},
 			&c20Tree{name: "subdir", files: map[string]string{"workflow.yaml": c20Loop("sub/leaf.yaml", defaultInputSchema, "$.input.n", otherID, ""), "sub/leaf.yaml": leaf}},
 		)
 	}
@@ -156,6 +165,9 @@ func c20Unit(otherID string, explicit *[2]bool, tag string) *Unit {
 			contents := map[string][]byte{}
 			for name, text := range tree.files {
 				contents[name] = []byte(text)
+			}
+			for spelling, name := range tree.aliases {
+				contents[spelling] = []byte(tree.files[name])
 			}
 			for _, leafKind := range []env.RunKind{env.RunSuccess, env.RunErrorOut, env.RunCrash} {
 				if otherID == "" && leafKind != env.RunSuccess {
@@ -276,14 +288,14 @@ func c20Unit(otherID string, explicit *[2]bool, tag string) *Unit {
 		res.Outcomes = len(outcomes)
 		res.Nontrivial = len(outcomes)
 		res.Signatures = res.Execs
-		res.Sample = map[string]any{"output_declaration": tag, "trees": []string{"depth0", "depth1", "depth2", "depth3", "diamond", "siblings", "sharedlevels", "sharedlevels2", "subdir"}, "entry_points": []string{"RunWorkflow", "Parse+Run", "Prepare+Execute"}}
+		res.Sample = map[string]any{"output_declaration": tag, "trees": []string{"depth0", "depth1", "depth2", "depth3", "diamond", "siblings", "sharedlevels", "sharedlevels2", "dotslash", "dotdot", "dblslash", "nesteddotslash", "subdir"}, "entry_points": []string{"RunWorkflow", "Parse+Run", "Prepare+Execute"}}
 		return res
 	}}
 }
 
 func init() {
 	register(&PropCheck{ID: "C20", Level: "exploration",
-		Rule:        "workflow trees on disk (nesting depth 0-3, diamond-shared, sibling and level-crossing shared sub-workflows, sub-directory) x output declarations (ids success / error / failure / a-b_c; inferred, explicit error:true, explicit error:false) x leaf outcome (each declared output chosen) x context directory absolute / relative x working directory in {context, parent, unrelated} x reversed file-map iteration, through RunWorkflow and Parse+Run, compared with Prepare+Execute on the same text; error flag checked against the declaration; a case is non-trivial per distinct result",
+		Rule:        "workflow trees on disk (nesting depth 0-3, diamond-shared, sibling and level-crossing shared sub-workflows, sub-directory, sub-workflow paths that are not canonical: ./x, d/../x, d//x) x output declarations (ids success / error / failure / a-b_c; inferred, explicit error:true, explicit error:false) x leaf outcome (each declared output chosen) x context directory absolute / relative x working directory in {context, parent, unrelated} x reversed file-map iteration, through RunWorkflow and Parse+Run, compared with Prepare+Execute on the same text; error flag checked against the declaration; a case is non-trivial per distinct result",
 		Assumptions: []string{"the arcaflow binary's exit code mapping is not exercised (package main; its registry cannot be replaced without changing the code under test)", "runs use the default schedule of the controlled runtime (programs have a unique meaning)", "scripted deployer registered by reassigning engine.DefaultDeployerRegistry"},
 		Budget:      budget(170*time.Second, 20*time.Minute),
 		Units: func(tier string) []*Unit {
